@@ -9,8 +9,14 @@
    one frame record per invocation id instead of ParseCursor's stack; the step itself is
    ParseCursor's LoopTop: its contract TopOK (the cursor has advanced since the previous top of the
    same invocation) and bookkeeping AtTop, with the invariants CursorInBounds and TopBound
-   (at most n+1 tops per invocation) evaluated at every step.                                    *)
+   (at most n+1 tops per invocation) evaluated at every step.  n is the length of the CALLER's
+   input (what was passed to parser.ParseString), so a cursor beyond it is a position outside the
+   input.  `entered` counts, as in ParseCursor, how often one loop is started at one index during
+   one parse (ReparseBound).                                                                     *)
 EXTENDS ParseCursor, Json
+
+CONSTANT TraceReparseLimit   \* ReparseBound for real parses: ordered alternatives start attributesParser /
+                             \* expressionParser at one index a few times (corpus maximum 4); nesting must not multiply it
 
 VARIABLES i, frames, n, cur, nbad
 tvars == <<i, frames, n, cur, nbad>>
@@ -22,7 +28,7 @@ TInit == Init /\ i = 1 /\ frames = <<>> /\ n = 0 /\ cur = -1 /\ nbad = 0
 
 Begin(e) == /\ e.k = "in"
             /\ cur' = e.id /\ n' = e.n /\ frames' = <<>>
-            /\ idx' = 0
+            /\ idx' = 0 /\ entered' = <<>>
             /\ UNCHANGED nbad
 
 FrameOf(e) == IF e.f \in DOMAIN frames THEN frames[e.f] ELSE Frame(e.l)
@@ -32,6 +38,7 @@ TopViolations(e) ==
        (IF TopOK(f, e.i) THEN {} ELSE {"NoProgress"})
   \cup (IF 0 <= e.i /\ e.i <= n THEN {} ELSE {"CursorInBounds"})
   \cup (IF AtTop(f, e.i).tops <= n + 1 THEN {} ELSE {"TopBound"})
+  \cup (IF f.tops = 0 /\ Count(entered, <<e.l, e.i>>) + 1 = TraceReparseLimit + 1 THEN {"ReparseBound"} ELSE {})
 
 Top(e) == /\ e.k = "top"
           /\ e.id = cur
@@ -40,12 +47,14 @@ Top(e) == /\ e.k = "top"
              /\ nbad' = nbad + (IF v # {} THEN 1 ELSE 0)
           /\ frames' = (e.f :> AtTop(FrameOf(e), e.i)) @@ frames
           /\ idx' = e.i                                   \* the model's cursor follows the logged one
+          /\ entered' = IF FrameOf(e).tops = 0 THEN Bump(entered, <<e.l, e.i>>) ELSE entered
           /\ UNCHANGED <<n, cur>>
 
 TNext == /\ i <= Len_
          /\ (Begin(Trace[i]) \/ Top(Trace[i]))
          /\ i' = i + 1
          /\ UNCHANGED <<stack, started, done>>           \* the per-invocation records replace the stack (see above)
+         /\ (Trace[i].k = "in" \/ Trace[i].k = "top")
          /\ TLCSet(7, i)
 
 AllConsumed == TLCGet(7) = Len_
